@@ -248,7 +248,7 @@ var pureModels = map[string]bool{
 	"errors.New": true, "fmt.Errorf": true, "fmt.Sprintf": true, "fmt.Sprint": true, "errors.Is": true,
 	"strings.EqualFold": true, "strings.ToLower": true, "strings.ToUpper": true, "strings.HasPrefix": true, "strings.HasSuffix": true,
 	"strings.TrimPrefix": true, "strings.TrimSpace": true, "strings.Contains": true, "strings.Index": true, "strings.Split": true,
-	"bytes.Equal": true, "strconv.Itoa": true, "strconv.Atoi": true, "strconv.Quote": true,
+	"bytes.Equal": true, "strconv.Itoa": true, "strconv.Atoi": true, "strconv.ParseUint": true, "strconv.Quote": true,
 	"(*strings.Builder).String": true, "bytes.NewReader": true,
 }
 
@@ -470,6 +470,21 @@ func (x *Exec) stdlibModel(fr *frame, s *State, callee *ssa.Function, args []Val
 		x.C.Assume(Implies(r, BVCmp("bvule", app(SBV64, "sx.len", pre), app(SBV64, "sx.len", str))))
 		x.C.Trusted["strings.HasPrefix/HasSuffix(s, p) implies len(p) <= len(s)"] = true
 		return []Value{boolVal(r)}, true
+	case k == "strconv.ParseUint":
+		// a function of its arguments; a successful result fits the requested bit size
+		x.C.DeclareFun("sx.parseuint", []Sort{SStr, SBV64, SBV64}, SBV64)
+		x.C.DeclareFun("sx.parseuintok", []Sort{SStr, SBV64, SBV64}, SBool)
+		str, base, bits := args[0].L[0], args[1].L[0], args[2].L[0]
+		v := app(SBV64, "sx.parseuint", str, base, bits)
+		ok := app(SBool, "sx.parseuintok", str, base, bits)
+		fits := Or(BVCmp("bvsle", bits, BVLitI(64, 0)), BVCmp("bvsge", bits, BVLitI(64, 64)),
+			BVCmp("bvult", v, BVOp("bvshl", BVLitI(64, 1), bits)))
+		x.C.Assume(Implies(ok, fits))
+		r := x.alloc(s, "err")
+		tag := IntLit(x.E.typeID(types.NewPointer(types.NewNamed(types.NewTypeName(token.NoPos, nil, "strconv.NumError", nil), types.NewStruct(nil, nil), nil))))
+		errV := Value{T: res(1), L: []Term{Ite(ok, IntLit(0), tag), Ite(ok, IntLit(0), r), BVLitI(64, 0)}}
+		x.C.Trusted["strconv.ParseUint is a function of its arguments; a successful result is below 2^bitSize"] = true
+		return []Value{{T: res(0), L: []Term{v}}, errV}, true
 	case k == "strings.EqualFold":
 		a, b := args[0].L[0], args[1].L[0]
 		// reflexive, symmetric (by ordering the arguments is not possible syntactically: axioms instead)
